@@ -19,7 +19,7 @@ RULE = ("fault space = truncation points of the writer: frame sizes 2*nc for nc 
         "distinct = distinct (nc, frames, trailing, claim, fs, reader class)")
 ASSUMPTIONS = ["truncation = a prefix of the byte stream the writer would have produced", "at least one complete frame is present",
                "still-acquiring metadata (no fileTimeSecs / fileSizeBytes yet) is only given to OnlineReader, the class meant for it"]
-REQUIRED = {"constructions": 400, "resaved_headers": 60, "prefix_values_checked": 400, "half_frame_or_more": 100, "beyond_end_reads": 400, "cbin_short": 2, "deferred_opens": 60, "reopens_after_growth": 100, "metadata_without_size_field": 100, "online_live_sizes": 20, "long_off_by_few": 6, "other_sample_widths": 40}
+REQUIRED = {"constructions": 400, "resaved_headers": 60, "prefix_values_checked": 400, "half_frame_or_more": 100, "beyond_end_reads": 400, "cbin_short": 2, "deferred_opens": 60, "reopens_after_growth": 100, "metadata_without_size_field": 100, "online_live_sizes": 20, "long_off_by_few": 6, "other_sample_widths": 40, "headers_announcing_zero": 40}
 CASE_TIMEOUT = 400.0
 NCS = [2, 5, 97, 277, 385]
 FRAMES = [1, 2, 22, 1000]
@@ -99,7 +99,12 @@ def run_case(case):
         for trailing in case["trailing"]:
             for fs in (30000.0, 30000.390639481):
                 claim = str(rng.choice(["equal", "fewer", "more", "more-fraction"]))
-                if claim == "equal":
+                if trailing == case["trailing"][-1] or rng.random() < 0.1:
+                    claim = "zero"              # header written when the acquisition started and never finalised: zero bytes, zero seconds (round 20)
+                    res.count("headers_announcing_zero")
+                if claim == "zero":
+                    claim_ns = 0
+                elif claim == "equal":
                     claim_ns = frames
                 elif claim == "fewer":
                     claim_ns = max(1, frames - int(rng.integers(1, 6))) if frames > 1 else 1
